@@ -10,6 +10,7 @@ import (
 	"os/exec"
 	"path/filepath"
 	"reflect"
+	"strconv"
 	"strings"
 	"testing"
 
@@ -178,6 +179,9 @@ func genData(t *rapid.T, s map[string]interface{}) interface{} {
 		return genData(t, s["e"].(map[string]interface{}))
 	default:
 		n := rapid.IntRange(0, 4).Draw(t, "dn")
+		if uni(t, 12, "dnBig") == 0 {
+			n = thresholdSizes[uni(t, 14, "dnBigN")] // up to 24 elements
+		}
 		arr := make([]interface{}, n)
 		for i := range arr {
 			arr[i] = genData(t, s["e"].(map[string]interface{}))
@@ -652,6 +656,29 @@ func TestC19(t *testing.T) {
 			expr = genExpr(t, doc, f)
 		}
 		var input string
+		if uni(t, 40, "hugeInput") == 0 {
+			// one line of more than 64 KiB (line-oriented readers, fixed buffers)
+			var sb strings.Builder
+			if rapid.Bool().Draw(t, "hugeString") {
+				sb.WriteString(`{"a":"`)
+				sb.WriteString(strings.Repeat("x", 70000))
+				sb.WriteString(`","b":[1,2]}`)
+			} else {
+				sb.WriteString(`{"a":[`)
+				for i := 0; i < 14000; i++ {
+					if i > 0 {
+						sb.WriteByte(',')
+					}
+					sb.WriteString(strconv.Itoa(i % 1000))
+				}
+				sb.WriteString(`],"b":"y"}`)
+			}
+			expr = []string{"length(a)", "b", "a[-1]", "[length(a), b]", "type(a)"}[uni(t, 5, "hugeExpr")]
+			c := withExpr(Case{Property: "C19", Kind: "cli"}, expr)
+			c.Extra = map[string]interface{}{"input": sb.String(), "channel": []string{"stdin", "file"}[uni(t, 2, "hugeChannel")], "dashdash": false}
+			run(t, c)
+			return
+		}
 		switch rapid.IntRange(0, 9).Draw(t, "inputKind") {
 		case 0, 1:
 			input = cliBadInputs[rapid.IntRange(0, len(cliBadInputs)-1).Draw(t, "bad")]
@@ -778,6 +805,9 @@ type rGroup struct {
 	Flag    bool
 }
 type rDoc struct {
+	Many      []rMember
+	ManyPtr   []*rMember
+	ManyNames []string
 	Groups    []rGroup
 	GroupPtrs []*rGroup
 	One       rGroup
@@ -795,7 +825,24 @@ func richDoc() *rDoc {
 	g1 := rGroup{Title: "g1", Members: []*rMember{m1, nil, m2, nil, zero}, Items: []rMember{*m1, *m3}, Vals: [][]float64{{1, 2}, {}, {3}}, Flag: true}
 	g2 := rGroup{Title: "g2", Members: []*rMember{}, Items: []rMember{}, Vals: [][]float64{}, Sub: &g1}
 	g3 := rGroup{Title: "", Members: []*rMember{nil, m3}, Items: []rMember{*m2}, Vals: [][]float64{{4}}, Sub: &g2, Flag: true}
-	return &rDoc{Groups: []rGroup{g1, g2, g3}, GroupPtrs: []*rGroup{&g3, nil, &g1}, One: g1, Names: []string{"b", "", "a"}, Nums: []float64{2, 0, 1}}
+	var many []rMember
+	var manyPtr []*rMember
+	var manyNames []string
+	for i := 0; i < 40; i++ {
+		m := rMember{Name: "n" + strconv.Itoa(i%7), Age: float64(40 - i), Tags: []string{"t" + strconv.Itoa(i)}}
+		if i%3 == 0 {
+			m.Ptr = m1
+		}
+		many = append(many, m)
+		if i%5 == 4 {
+			manyPtr = append(manyPtr, nil)
+		} else {
+			mm := m
+			manyPtr = append(manyPtr, &mm)
+		}
+		manyNames = append(manyNames, m.Name)
+	}
+	return &rDoc{Many: many, ManyPtr: manyPtr, ManyNames: manyNames, Groups: []rGroup{g1, g2, g3}, GroupPtrs: []*rGroup{&g3, nil, &g1}, One: g1, Names: []string{"b", "", "a"}, Nums: []float64{2, 0, 1}}
 }
 
 func init() { predicates["richequiv"] = predRichEquiv }
@@ -839,9 +886,9 @@ func predRichEquiv(c Case) (r Result) {
 	return
 }
 
-var richLHS = []string{"Groups", "GroupPtrs", "One.Members", "One.Items", "Names", "Nums", "One.Vals", "Nil", "One.Sub", "Groups[2].Sub", "Groups[0].Members", "[Groups, GroupPtrs]", "Groups[*].Members", "GroupPtrs[*].Items", "@", "One"}
+var richLHS = []string{"Many", "ManyPtr", "ManyNames", "Many[:17]", "ManyPtr[:16]", "Many[:15]", "Groups", "GroupPtrs", "One.Members", "One.Items", "Names", "Nums", "One.Vals", "Nil", "One.Sub", "Groups[2].Sub", "Groups[0].Members", "[Groups, GroupPtrs]", "Groups[*].Members", "GroupPtrs[*].Items", "@", "One"}
 var richOps = []string{"", "[*]", "[]", "[?@]", "[?Name]", "[?Flag]", "[?Ptr]", "[?!Ptr]", "[?Ptr || Name]", "[?Ptr && Age]", "[?Members]", "[?!Sub]", "[?Title && Flag]", "[?Sub || Flag]", "[1:]", "[::-1]", "[*][*]", "[][]", "[*].Members[]", "[].Members", "[*].Members[*]", "[].Items[]", "[*].Vals[]", "[].Vals[][]", "[0]", "[-1]", "[1]"}
-var richRHS = []string{"", ".Name", ".Title", ".Members", ".Members[0]", ".Members[1]", ".Members[0].Name", ".[Name]", ".{n: Name, t: Title}", ".Tags[0]", ".Members[].Name", ".Sub.Title", ".Sub.Sub.Members[]", ".Ptr.Name", ".[Members[]]", ".{m: Members[*].Name}", ".length(Members)", ".Items[*].Tags[]", ".[Ptr, Name]", ".Ptr.[Name]", ".[!Ptr, Ptr || Name, Ptr && Name]", ".Ptr.Ptr", ".[!@, @ && Name]"}
+var richRHS = []string{"", ".Name", ".Ptr", ".Age", ".Title", ".Members", ".Members[0]", ".Members[1]", ".Members[0].Name", ".[Name]", ".{n: Name, t: Title}", ".Tags[0]", ".Members[].Name", ".Sub.Title", ".Sub.Sub.Members[]", ".Ptr.Name", ".[Members[]]", ".{m: Members[*].Name}", ".length(Members)", ".Items[*].Tags[]", ".[Ptr, Name]", ".Ptr.[Name]", ".[!Ptr, Ptr || Name, Ptr && Name]", ".Ptr.Ptr", ".[!@, @ && Name]"}
 var richEnd = []string{"", " | length(@)", " | [0]", " | [*].[Name]", " | [*].{n: Name}", " | [?@]", " | [-1].Name", " | [][]"}
 
 // TestC18Rich: navigational shape grid on a rich struct document (pointers with
